@@ -352,6 +352,100 @@ func (w *world) cleanOracles(run string) {
 	})
 }
 
+// flattenDoc: ordered list of path=literal for every scalar, plus container markers, so that value
+// AND position of every member can be compared (hex(path):hex(literal) joined by ',')
+func flattenDoc(kind string, doc []byte) string {
+	var items []string
+	add := func(path, lit string) { items = append(items, hx(path)+":"+hx(lit)) }
+	if kind == "json" {
+		dec := json.NewDecoder(bytes.NewReader(doc))
+		dec.UseNumber()
+		var walk func(path string) bool
+		walk = func(path string) bool {
+			t, err := dec.Token()
+			if err != nil {
+				add(path, "!ERR "+err.Error())
+				return false
+			}
+			switch v := t.(type) {
+			case json.Delim:
+				if v == '{' {
+					add(path, "{")
+					for dec.More() {
+						k, err := dec.Token()
+						if err != nil {
+							add(path, "!ERR")
+							return false
+						}
+						if !walk(path + "/" + strings.ReplaceAll(fmt.Sprint(k), "/", "~1")) {
+							return false
+						}
+					}
+					dec.Token()
+					add(path, "}")
+				} else if v == '[' {
+					add(path, "[")
+					i := 0
+					for dec.More() {
+						if !walk(path + "/" + strconv.Itoa(i)) {
+							return false
+						}
+						i++
+					}
+					dec.Token()
+					add(path, "]")
+				}
+			case string:
+				add(path, "s:"+v)
+			case json.Number:
+				add(path, "n:"+v.String())
+			case bool:
+				add(path, fmt.Sprintf("b:%v", v))
+			case nil:
+				add(path, "null")
+			}
+			return true
+		}
+		if walk("") {
+			if _, err := dec.Token(); err != io.EOF {
+				add("", "!TRAILING")
+			}
+		}
+		return strings.Join(items, ",")
+	}
+	var v yaml.MapSlice
+	var any0 any
+	if err := yaml.UnmarshalWithOptions(doc, &v, yaml.UseOrderedMap()); err != nil {
+		if err2 := yaml.Unmarshal(doc, &any0); err2 != nil {
+			add("", "!ERR "+err.Error())
+			return strings.Join(items, ",")
+		}
+		add("", fmt.Sprintf("v:%v", any0))
+		return strings.Join(items, ",")
+	}
+	var walk func(path string, x any)
+	walk = func(path string, x any) {
+		switch t := x.(type) {
+		case yaml.MapSlice:
+			add(path, "{")
+			for _, it := range t {
+				walk(path+"/"+strings.ReplaceAll(fmt.Sprint(it.Key), "/", "~1"), it.Value)
+			}
+			add(path, "}")
+		case []any:
+			add(path, "[")
+			for i, e := range t {
+				walk(path+"/"+strconv.Itoa(i), e)
+			}
+			add(path, "]")
+		default:
+			add(path, fmt.Sprintf("%T:%v", x, x))
+		}
+	}
+	walk("", v)
+	return strings.Join(items, ",")
+}
+
 func captureStdout(f func()) string {
 	old := os.Stdout
 	tmp, err := os.CreateTemp("", "verifout")
@@ -550,6 +644,40 @@ func (w *world) exec(line string) {
 		})
 		fmt.Fprintln(w.ann, line)
 		w.result("clean", nil, before, out)
+	case "mdoc":
+		// mdoc <json|yaml> <dochex> <matcher>...: apply the matchers one after the other through the
+		// public API of package match, directly on the caller's slice; report each output document,
+		// its errors, an ordered flattening of input and output, and whether the caller's bytes changed
+		kind, doc := tok[1], []byte(unhx(tok[2]))
+		cur := append([]byte(nil), doc...)
+		var parts []string
+		for _, mt := range tok[3:] {
+			m := parseMatcher(mt).build()
+			callers := append([]byte(nil), cur...)
+			keep := append([]byte(nil), callers...)
+			var o []byte
+			var errs []match.MatcherError
+			if kind == "json" {
+				o, errs = m.JSON(callers)
+			} else {
+				o, errs = m.YAML(callers)
+			}
+			mutated := "0"
+			if !bytes.Equal(callers, keep) {
+				mutated = "1"
+			}
+			var es []string
+			for _, e := range errs {
+				es = append(es, hx(e.Matcher)+"~"+hx(e.Path)+"~"+hx(e.Reason.Error()))
+			}
+			parts = append(parts, fmt.Sprintf("out:%s|errs:%s|mut:%s|fb:%s|fa:%s", hx(string(o)), strings.Join(es, "+"), mutated,
+				flattenDoc(kind, keep), flattenDoc(kind, o)))
+			if len(errs) == 0 {
+				cur = append([]byte(nil), o...)
+			}
+		}
+		fmt.Fprintln(w.ann, "skipline")
+		fmt.Fprintf(w.out, "mdoc %s\n", strings.Join(parts, " "))
 	case "pdiff":
 		// white-box: the report builder on its own
 		rep := prettyDiff(unhx(tok[1]), unhx(tok[2]), unhx(tok[3]), atoi(tok[4]))
